@@ -134,6 +134,9 @@ def run(db, rep, tier):
     carry_timestamp(db, rep)
     sniff_loop_shape(db, rep)
     iterator_protocol(db, rep)
+    rep.rule("R9-writer-handles", "every PacketWriter constructor gives its pcap handle and dumper a value before anything reads them (the "
+                                  "destructor closes whatever they hold): directly, or through the member it delegates to", 2)
+    writer_handles(db, rep)
     rep.explanation = ("Decides the 'never lets an exception escape from the per-packet loop' clause for the pcap callbacks and "
                        "the structural part of 'skips malformed frames, ends cleanly': escape sets of all %d installed handlers, "
                        "the processed-flag protocol, the handlers' own reads of the frame (R3) and the shape of next_packet's loop. Round-trip of bytes/timestamps and BPF "
@@ -621,6 +624,59 @@ def sniff_loop_shape(db, rep):
                           "throws malformed_packet / pdu_not_found silently ends the whole capture")
             return
     rep.ok("R7-sniff-loop", key, facts.loc(f, tries[0]), "exceptions of one callback invocation are swallowed inside the loop")
+
+
+def writer_handles(db, rep):
+    REC = "Tins::PacketWriter"
+    r = db.records.get(REC)
+    if not r:
+        rep.analysis_broken("PacketWriter vanished")
+        return
+    ptrs = [fl["name"] for fl in r.get("fields", []) if (facts.tyi(r, fl.get("t")) or {}).get("k") == "ptr"]
+    if not ptrs:
+        rep.analysis_broken("PacketWriter has no pointer members any more")
+        return
+
+    def first_access(f, P, depth=0):
+        """'write' / 'read' / None: what happens first (source order) to this->P in f, following calls on *this"""
+        idx, parent = facts.index_fn(f)
+        for i in f.get("inits", []):
+            if i.get("member") == P and i.get("written"):
+                return "write"
+        for x in facts.fn_nodes(f):
+            if x["k"] == "MemberExpr" and x.get("member") == P and x.get("isfield") and \
+                    (not x.get("c") or facts.strip_all(x["c"][0])["k"] == "CXXThisExpr"):
+                p_ = parent.get(x["id"])
+                while p_ is not None and p_["k"] in ("ParenExpr",):
+                    p_ = parent.get(p_["id"])
+                if p_ is not None and p_["k"] == "BinaryOperator" and p_.get("op") == "=" and facts.strip_all(p_["c"][0]) is x:
+                    return "write"
+                return "read"
+            if depth < 3 and x["k"] in ("CXXMemberCallExpr", "CXXOperatorCallExpr") and x.get("callee"):
+                h = db.fn(x["callee"])
+                onthis = any(y["k"] == "CXXThisExpr" for y in facts.walk(x["c"][0] if x["k"] == "CXXMemberCallExpr" else x["c"][1]))
+                if h is not None and h.get("body") and h.get("rec") == REC and h is not f and onthis:
+                    a = first_access(h, P, depth + 1)
+                    if a is not None:
+                        return a
+        return None
+    n = 0
+    for fid, f in sorted(db.functions.items()):
+        if f.get("rec") != REC or f.get("kind") != "ctor" or not f.get("body") or f.get("special") == "copy_ctor":
+            continue
+        for P in ptrs:
+            n += 1
+            a = first_access(f, P)
+            key = "PacketWriter(%s):%s" % ("&&" if f.get("special") == "move_ctor" else "%d" % len(f["params"]), P)
+            if a == "write":
+                rep.ok("R9-writer-handles", key, facts.loc(f), "`%s` is written before it is read" % P)
+            else:
+                rep.violation("R9-writer-handles", key, facts.loc(f),
+                              "the constructor %s `%s`%s: the indeterminate pointer ends up in this object or (through the swap of the move "
+                              "assignment it delegates to) in the moved-from writer, whose destructor hands it to pcap_dump_close / pcap_close"
+                              % ("reads" if a == "read" else "never initialises", P, " before giving it a value" if a == "read" else ""))
+    if n < 2:
+        rep.analysis_broken("PacketWriter constructors not found")
 
 
 def iterator_protocol(db, rep):
